@@ -57,20 +57,31 @@ struct Elem
     enum { ALIVE = 0x5a17c0de, DEAD = 0x0dead0ad };
     static long live;
     static long bad;
+    static long cc, as, dt, nd;   // calls of the copy constructor, copy assignment, destructor, other constructors
     int v;
     unsigned magic;
-    Elem(int x = 0) : v(x), magic(ALIVE) { ++live; }
-    Elem(const Elem& o) : v(o.val()), magic(ALIVE) { ++live; }
-    Elem& operator=(const Elem& o) { if (magic != unsigned(ALIVE)) ++bad; v = o.val(); return *this; }
-    ~Elem() { if (magic != unsigned(ALIVE)) ++bad; magic = DEAD; v = -777; --live; }
+    Elem(int x = 0) : v(x), magic(ALIVE) { ++live; ++nd; }
+    Elem(const Elem& o) : v(o.val()), magic(ALIVE) { ++live; ++cc; }
+    Elem& operator=(const Elem& o) { if (magic != unsigned(ALIVE)) ++bad; v = o.val(); ++as; return *this; }
+    ~Elem() { if (magic != unsigned(ALIVE)) ++bad; magic = DEAD; v = -777; --live; ++dt; }
     int val() const { if (magic != unsigned(ALIVE)) ++bad; return v; }
     operator int() const { return val(); }
 };
 long Elem::live = 0;
 long Elem::bad = 0;
+long Elem::cc = 0;
+long Elem::as = 0;
+long Elem::dt = 0;
+long Elem::nd = 0;
 typedef Elem VALT;
+// X(stmt): run one call into the container and add the element-class calls it made to g_acc (arguments are
+// built before, so that only what the container itself constructs / assigns / destroys is counted)
+static long g_acc[4] = {0, 0, 0, 0};
+#define X(stmt) do { const long c0 = Elem::cc, a0 = Elem::as, d0 = Elem::dt, n0 = Elem::nd; stmt; \
+    g_acc[0] += Elem::cc - c0; g_acc[1] += Elem::as - a0; g_acc[2] += Elem::dt - d0; g_acc[3] += Elem::nd - n0; } while (0)
 #else
 typedef int VALT;
+#define X(stmt) do { stmt; } while (0)
 #endif
 
 // ------------------------------------------------------------------------------------ vector
@@ -129,6 +140,7 @@ struct XM : public XMapBase   // derived only to read the protected members
     XM(const XM& o, MemoryManager& mm) : XMapBase(o, mm) {}
     size_t nb() const { return m_buckets.size(); }
     size_t nfree() const { return m_freeEntries.size(); }
+    size_t bcapSum() { size_t n = 0; for (TableIterator b = m_buckets.begin(); b != m_buckets.end(); ++b) n += b->capacity(); return n; }
     void ptrs(size_t& total, size_t& stale)
     {
         total = stale = 0;
@@ -155,7 +167,7 @@ static std::string show(MapPair& p, const std::string& pre, bool& bad)
     std::ostringstream o;
     size_t total, stale;
     p.x->ptrs(total, stale);
-    o << pre << p.x->size() << " nb=" << p.x->nb() << " ptr=" << total << " stale=" << stale << " free=" << p.x->nfree() << " :";
+    o << pre << p.x->size() << " nb=" << p.x->nb() << " ptr=" << total << " stale=" << stale << " free=" << p.x->nfree() << " bc=" << p.x->bcapSum() << " :";
     bool same = p.x->size() == p.s.size() && p.s.size() == p.m.size() && p.x->empty() == p.s.empty();
     size_t i = 0;
     for (XM::iterator it = p.x->begin(); it != p.x->end(); ++it, ++i)
@@ -385,7 +397,23 @@ int main()
             std::cout << "ok\n";
             continue;
         }
+        if (sub == "arith")
+        {
+            // the two floating-point size computations of the containers against the integer formulas of the models
+            size_t nmax = size_t(std::strtoul(op.c_str(), 0, 10)), badAt = 0;
+            for (size_t n = 1; n <= nmax && badAt == 0; ++n)
+            {
+                if (size_t(1.6 * n) != 8 * n / 5) badAt = n;                      // XalanMap::rehash
+                if (size_t((n * 1.6) + 0.5) != (16 * n + 5) / 10) badAt = n;      // XalanVector::grow
+                if (size_t(0.75 * n) != 3 * n / 4) badAt = n;                     // load factor 0.75
+            }
+            if (badAt) std::cout << "arith differs at " << badAt << " !std\n"; else std::cout << "ok\n";
+            continue;
+        }
         if (poisoned) { std::cout << "skip\n"; continue; }
+#if defined(C20_ELEM)
+        g_acc[0] = g_acc[1] = g_acc[2] = g_acc[3] = 0;
+#endif
         long a[6] = {0, 0, 0, 0, 0, 0};
         int n = 0;
         while (n < 6 && (in >> a[n])) ++n;
@@ -396,10 +424,10 @@ int main()
             size_t id = size_t(a[0]);
             if (id >= w->vs.size()) { std::cout << "bad\n"; continue; }
             VecPair& p = *w->vs[id];
-            if (op == "new") { delete w->vs[id]; w->vs[id] = new VecPair; out = show(*w->vs[id], bad); }
+            if (op == "new") { X(delete w->vs[id]); w->vs[id] = new VecPair; out = show(*w->vs[id], bad); }
             else if (op == "newcap")
             {
-                delete w->vs[id];
+                X(delete w->vs[id]);
                 w->vs[id] = new VecPair;
                 XVec t(g_mm, size_t(a[1]));
                 w->vs[id]->x.swap(t);
@@ -407,32 +435,32 @@ int main()
             }
             else
             {
-                if (op == "push") { p.x.push_back(int(a[1])); p.s.push_back(int(a[1])); }
-                else if (op == "pop") { p.x.pop_back(); p.s.pop_back(); }
-                else if (op == "ins1") { p.x.insert(p.x.begin() + a[1], int(a[2])); p.s.insert(p.s.begin() + a[1], int(a[2])); }
-                else if (op == "insn") { p.x.insert(p.x.begin() + a[1], size_t(a[2]), int(a[3])); p.s.insert(p.s.begin() + a[1], size_t(a[2]), int(a[3])); }
+                if (op == "push") { const VALT val = VALT(int(a[1])); X(p.x.push_back(val)); p.s.push_back(int(a[1])); }
+                else if (op == "pop") { X(p.x.pop_back()); p.s.pop_back(); }
+                else if (op == "ins1") { const VALT val = VALT(int(a[2])); X(p.x.insert(p.x.begin() + a[1], val)); p.s.insert(p.s.begin() + a[1], int(a[2])); }
+                else if (op == "insn") { const VALT val = VALT(int(a[3])); X(p.x.insert(p.x.begin() + a[1], size_t(a[2]), val)); p.s.insert(p.s.begin() + a[1], size_t(a[2]), int(a[3])); }
                 else if (op == "insr")
                 {
                     VecPair& q = *w->vs[size_t(a[2])];
-                    p.x.insert(p.x.begin() + a[1], q.x.begin() + a[3], q.x.begin() + a[4]);
+                    X(p.x.insert(p.x.begin() + a[1], q.x.begin() + a[3], q.x.begin() + a[4]));
                     p.s.insert(p.s.begin() + a[1], q.s.begin() + a[3], q.s.begin() + a[4]);
                 }
-                else if (op == "erase") { p.x.erase(p.x.begin() + a[1], p.x.begin() + a[2]); p.s.erase(p.s.begin() + a[1], p.s.begin() + a[2]); }
-                else if (op == "resize") { p.x.resize(size_t(a[1]), int(a[2])); p.s.resize(size_t(a[1]), int(a[2])); }
-                else if (op == "reserve") { p.x.reserve(size_t(a[1])); p.s.reserve(size_t(a[1])); }
-                else if (op == "clear") { p.x.clear(); p.s.clear(); }
+                else if (op == "erase") { X(p.x.erase(p.x.begin() + a[1], p.x.begin() + a[2])); p.s.erase(p.s.begin() + a[1], p.s.begin() + a[2]); }
+                else if (op == "resize") { const VALT val = VALT(int(a[2])); X(p.x.resize(size_t(a[1]), val)); p.s.resize(size_t(a[1]), int(a[2])); }
+                else if (op == "reserve") { X(p.x.reserve(size_t(a[1]))); p.s.reserve(size_t(a[1])); }
+                else if (op == "clear") { X(p.x.clear()); p.s.clear(); }
                 else if (op == "assign")
                 {
                     VecPair& q = *w->vs[size_t(a[1])];
-                    p.x.assign(q.x.begin() + a[2], q.x.begin() + a[3]);
+                    X(p.x.assign(q.x.begin() + a[2], q.x.begin() + a[3]));
                     p.s.assign(q.s.begin() + a[2], q.s.begin() + a[3]);
                 }
-                else if (op == "copy") { VecPair& q = *w->vs[size_t(a[1])]; p.x = q.x; p.s = q.s; }
-                else if (op == "swap") { VecPair& q = *w->vs[size_t(a[1])]; p.x.swap(q.x); p.s.swap(q.s); }
+                else if (op == "copy") { VecPair& q = *w->vs[size_t(a[1])]; X(p.x = q.x); p.s = q.s; }
+                else if (op == "swap") { VecPair& q = *w->vs[size_t(a[1])]; X(p.x.swap(q.x)); p.s.swap(q.s); }
                 // aliasing forms: the value argument refers to an element of the same vector
-                else if (op == "insself") { p.s.insert(p.s.begin() + a[1], size_t(a[2]), p.s[size_t(a[3])]); p.x.insert(p.x.begin() + a[1], size_t(a[2]), p.x[size_t(a[3])]); }
-                else if (op == "resizeself") { int v = p.s[size_t(a[2])]; p.s.resize(size_t(a[1]), v); p.x.resize(size_t(a[1]), p.x[size_t(a[2])]); }
-                else if (op == "pushself") { p.s.push_back(p.s[size_t(a[1])]); p.x.push_back(p.x[size_t(a[1])]); }
+                else if (op == "insself") { p.s.insert(p.s.begin() + a[1], size_t(a[2]), p.s[size_t(a[3])]); X(p.x.insert(p.x.begin() + a[1], size_t(a[2]), p.x[size_t(a[3])])); }
+                else if (op == "resizeself") { int v = p.s[size_t(a[2])]; p.s.resize(size_t(a[1]), v); X(p.x.resize(size_t(a[1]), p.x[size_t(a[2])])); }
+                else if (op == "pushself") { p.s.push_back(p.s[size_t(a[1])]); X(p.x.push_back(p.x[size_t(a[1])])); }
                 else { std::cout << "bad\n"; continue; }
                 out = show(p, bad);
             }
@@ -445,18 +473,18 @@ int main()
             std::string pre;
             if (op == "new")
             {
-                p.x.reset(new XM(g_mm, double(a[1]) / double(a[2]), size_t(a[3]), size_t(a[4])));
+                X(p.x.reset(new XM(g_mm, double(a[1]) / double(a[2]), size_t(a[3]), size_t(a[4]))));
                 p.s.clear(); p.m.clear();
             }
             else if (op == "ins")
             {
-                p.x->insert(CKey(int(a[1])), int(a[2]));
+                { const VALT val = VALT(int(a[2])); X(p.x->insert(CKey(int(a[1])), val)); }
                 if (!p.sfind(int(a[1]))) p.s.push_back(std::make_pair(int(a[1]), int(a[2])));
                 p.m.insert(std::make_pair(int(a[1]), int(a[2])));
             }
             else if (op == "set")
             {
-                (*p.x)[CKey(int(a[1]))] = int(a[2]);
+                { const VALT val = VALT(int(a[2])); X((*p.x)[CKey(int(a[1]))] = val); }
                 if (int* v = p.sfind(int(a[1]))) *v = int(a[2]); else p.s.push_back(std::make_pair(int(a[1]), int(a[2])));
                 p.m[int(a[1])] = int(a[2]);
             }
@@ -472,24 +500,24 @@ int main()
             }
             else if (op == "erase")
             {
-                size_t r = p.x->erase(CKey(int(a[1])));
+                size_t r = 0;
+                X(r = p.x->erase(CKey(int(a[1]))));
                 size_t sr = p.m.erase(int(a[1]));
                 for (size_t i = 0; i < p.s.size(); ++i) if (p.s[i].first == int(a[1])) { p.s.erase(p.s.begin() + i); break; }
                 std::ostringstream o; o << "r=" << r << " "; pre = o.str();
                 if (r != sr) bad = true;
             }
-            else if (op == "clear") { p.x->clear(); p.s.clear(); p.m.clear(); }
+            else if (op == "clear") { X(p.x->clear()); p.s.clear(); p.m.clear(); }
             else if (op == "copy")
             {
                 MapPair& q = *w->ms[size_t(a[1])];
-                static_cast<XMapBase&>(*p.x) = static_cast<const XMapBase&>(*q.x);
+                X(static_cast<XMapBase&>(*p.x) = static_cast<const XMapBase&>(*q.x));
                 if (&p != &q) { p.s = q.s; p.m = q.m; }
             }
             else if (op == "copyctor")
             {
                 MapPair& q = *w->ms[size_t(a[1])];
-                std::unique_ptr<XM> t(new XM(*q.x, g_mm));
-                p.x.swap(t);
+                X({ std::unique_ptr<XM> t(new XM(*q.x, g_mm)); p.x.swap(t); });
                 if (&p != &q) { p.s = q.s; p.m = q.m; }
             }
             else if (op == "swap")
@@ -551,25 +579,24 @@ int main()
             DeqPair& p = *w->ds[id];
             if (op == "new")
             {
-                p.x.reset(new XDeq(g_mm, size_t(a[2]), size_t(a[1])));
+                X(p.x.reset(new XDeq(g_mm, size_t(a[2]), size_t(a[1]))));
                 p.s.assign(size_t(a[2]), 0);
             }
-            else if (op == "push") { p.x->push_back(int(a[1])); p.s.push_back(int(a[1])); }
-            else if (op == "pop") { p.x->pop_back(); p.s.pop_back(); }
-            else if (op == "resize") { p.x->resize(size_t(a[1])); p.s.resize(size_t(a[1])); }
-            else if (op == "clear") { p.x->clear(); p.s.clear(); }
-            else if (op == "copy") { DeqPair& q = *w->ds[size_t(a[1])]; *p.x = *q.x; if (&p != &q) p.s = q.s; }
+            else if (op == "push") { const VALT val = VALT(int(a[1])); X(p.x->push_back(val)); p.s.push_back(int(a[1])); }
+            else if (op == "pop") { X(p.x->pop_back()); p.s.pop_back(); }
+            else if (op == "resize") { X(p.x->resize(size_t(a[1]))); p.s.resize(size_t(a[1])); }
+            else if (op == "clear") { X(p.x->clear()); p.s.clear(); }
+            else if (op == "copy") { DeqPair& q = *w->ds[size_t(a[1])]; X(*p.x = *q.x); if (&p != &q) p.s = q.s; }
             else if (op == "copyctor")
             {
                 DeqPair& q = *w->ds[size_t(a[1])];
-                std::unique_ptr<XDeq> t(new XDeq(*q.x, g_mm));
-                p.x.swap(t);
+                X({ std::unique_ptr<XDeq> t(new XDeq(*q.x, g_mm)); p.x.swap(t); });
                 if (&p != &q) p.s = q.s;
             }
             else if (op == "swap")
             {
                 DeqPair& q = *w->ds[size_t(a[1])];
-                if (&p != &q) { p.x->swap(*q.x); p.s.swap(q.s); }
+                if (&p != &q) { X(p.x->swap(*q.x)); p.s.swap(q.s); }
                 show(q, bad);   // the other side is part of the observable result of swap
             }
             else { std::cout << "bad\n"; continue; }
@@ -582,18 +609,20 @@ int main()
             if (op == "save" || op == "deref") id = size_t(a[1]);
             if (id >= w->ls.size()) { std::cout << "bad\n"; continue; }
             LstPair& p = *w->ls[id];
-            if (op == "new") { p.x.reset(new XLst(g_mmList)); p.s.clear(); }
-            else if (op == "pushb") { p.x->push_back(int(a[1])); p.s.push_back(int(a[1])); }
-            else if (op == "pushf") { p.x->push_front(int(a[1])); p.s.push_front(int(a[1])); }
-            else if (op == "popb") { p.x->pop_back(); p.s.pop_back(); }
-            else if (op == "popf") { p.x->pop_front(); p.s.pop_front(); }
+            if (op == "new") { X(p.x.reset(new XLst(g_mmList))); p.s.clear(); }
+            else if (op == "pushb") { const VALT val = VALT(int(a[1])); X(p.x->push_back(val)); p.s.push_back(int(a[1])); }
+            else if (op == "pushf") { const VALT val = VALT(int(a[1])); X(p.x->push_front(val)); p.s.push_front(int(a[1])); }
+            else if (op == "popb") { X(p.x->pop_back()); p.s.pop_back(); }
+            else if (op == "popf") { X(p.x->pop_front()); p.s.pop_front(); }
             else if (op == "insat")
             {
-                XLst::iterator r = p.x->insert(adv(p.x->begin(), a[1]), int(a[2]));
+                const VALT val = VALT(int(a[2]));
+                XLst::iterator r = p.x->end();
+                X(r = p.x->insert(adv(p.x->begin(), a[1]), val));
                 std::list<int>::iterator sr = p.s.insert(adv(p.s.begin(), a[1]), int(a[2]));
                 if (*r != *sr) bad = true;
             }
-            else if (op == "eraseat") { p.x->erase(adv(p.x->begin(), a[1])); p.s.erase(adv(p.s.begin(), a[1])); }
+            else if (op == "eraseat") { X(p.x->erase(adv(p.x->begin(), a[1]))); p.s.erase(adv(p.s.begin(), a[1])); }
             else if (op == "save")
             {
                 Slot& sl = w->slots[size_t(a[0])];
@@ -608,21 +637,21 @@ int main()
                 std::ostringstream o; o << "r=" << **sl.x << " "; pre = o.str();
                 if (**sl.x != *sl.s) bad = true;
             }
-            else if (op == "insit") { Slot& sl = w->slots[size_t(a[1])]; p.x->insert(*sl.x, int(a[2])); p.s.insert(sl.s, int(a[2])); }
-            else if (op == "eraseit") { Slot& sl = w->slots[size_t(a[1])]; p.x->erase(*sl.x); p.s.erase(sl.s); sl.x.reset(); }
+            else if (op == "insit") { Slot& sl = w->slots[size_t(a[1])]; const VALT val = VALT(int(a[2])); X(p.x->insert(*sl.x, val)); p.s.insert(sl.s, int(a[2])); }
+            else if (op == "eraseit") { Slot& sl = w->slots[size_t(a[1])]; X(p.x->erase(*sl.x)); p.s.erase(sl.s); sl.x.reset(); }
             else if (op == "splice")
             {
                 LstPair& q = *w->ls[size_t(a[2])];
-                p.x->splice(adv(p.x->begin(), a[1]), *q.x, adv(q.x->begin(), a[3]));
+                X(p.x->splice(adv(p.x->begin(), a[1]), *q.x, adv(q.x->begin(), a[3])));
                 p.s.splice(adv(p.s.begin(), a[1]), q.s, adv(q.s.begin(), a[3]));
             }
             else if (op == "splicer")
             {
                 LstPair& q = *w->ls[size_t(a[2])];
-                p.x->splice(adv(p.x->begin(), a[1]), *q.x, adv(q.x->begin(), a[3]), adv(q.x->begin(), a[4]));
+                X(p.x->splice(adv(p.x->begin(), a[1]), *q.x, adv(q.x->begin(), a[3]), adv(q.x->begin(), a[4])));
                 p.s.splice(adv(p.s.begin(), a[1]), q.s, adv(q.s.begin(), a[3]), adv(q.s.begin(), a[4]));
             }
-            else if (op == "clear") { p.x->clear(); p.s.clear(); }
+            else if (op == "clear") { X(p.x->clear()); p.s.clear(); }
             else if (op == "swap") { LstPair& q = *w->ls[size_t(a[1])]; p.x->swap(*q.x); p.s.swap(q.s); show(q, std::string(), bad); }
             else if (op == "show") {}
             else { std::cout << "bad\n"; continue; }
@@ -681,6 +710,10 @@ int main()
 #endif
             std::ostringstream lp;
             lp << " L=" << liveNow;
+#if defined(C20_ELEM)
+            // what the container itself did to element objects during this request
+            lp << " C=" << g_acc[0] << " A=" << g_acc[1] << " D=" << g_acc[2] << " N=" << g_acc[3];
+#endif
 #if defined(C20_ELEM)
             if (elemBad) lp << " elem(expected=" << expected << ",misuse=" << Elem::bad << ")";
 #endif
